@@ -191,7 +191,7 @@ impl Generator {
         final(self).view() == old(self).view().push(kind_of(value)),
         final(self).state.memo == old(self).state.memo,
         final(self).output == old(self).output,
-        final(self).same_config(old(self)),
+        final(self).same_config(old(self)), // @C08
 //@endfn
 
 //@fn src/generator/utils.rs Generator::pop
@@ -204,7 +204,7 @@ impl Generator {
             && final(self).view() == old(self).view().drop_last(),
         final(self).state.memo == old(self).state.memo,
         final(self).output == old(self).output,
-        final(self).same_config(old(self)),
+        final(self).same_config(old(self)), // @C08
 //@endfn
 
 //@fn src/generator/utils.rs Generator::get
@@ -225,7 +225,7 @@ impl Generator {
         forall|k: usize| k != index && old(self).state.memo@.dom().contains(k) ==> final(self).state.memo@[k] == old(self).state.memo@[k],
         final(self).state.stack == old(self).state.stack,
         final(self).output == old(self).output,
-        final(self).same_config(old(self)),
+        final(self).same_config(old(self)), // @C08
 //@endfn
 
 //@fn src/generator/utils.rs Generator::peek_at
@@ -459,9 +459,11 @@ impl Generator {
         self.rel(r),
     ensures
         res ==> opcode != OpcodeKind::Stop && opcode != OpcodeKind::Frame, // @C01 @C06
-        res ==> ref_pre_stack(opcode, r), // @C01
+        // (an opcode the reference machine cannot execute leaves no reference state for the simulation to mirror: C17)
+        res ==> ref_pre_stack(opcode, r), // @C01 @C17
         res && !self.unsafe_mutations ==> ref_pre_kind(opcode, r), // @C03
-        res && is_get(opcode) ==> self.state.memo@.len() > 0, // @C02
+        // (an emitter offered a GET with an empty memo writes nothing: the chosen body opcode then contributes no opcode, C11)
+        res && is_get(opcode) ==> self.state.memo@.len() > 0, // @C02 @C11
         res && (is_put(opcode) || opcode == OpcodeKind::Memoize) ==> r.stack.len() >= 1 && r.stack.last() != Kind::Mark, // @C02
         res && (opcode == OpcodeKind::Ext1 || opcode == OpcodeKind::Ext2 || opcode == OpcodeKind::Ext4) ==> self.allow_ext_opcodes, // @C10
         res && (opcode == OpcodeKind::NextBuffer || opcode == OpcodeKind::ReadOnlyBuffer) ==> self.allow_buffer_opcodes, // @C10
@@ -554,7 +556,7 @@ impl Generator {
         pso_ok(old(self), opcode, a, r) ==> final(self).rel(sim_step(opcode, a, r)),
         // in every state (unsafe mutations included): no panic, and only the simulated stack/memo change
         final(self).output == old(self).output, // @C04 @C06
-        final(self).same_config(old(self)), // @C05 @C10
+        final(self).same_config(old(self)), // @C05 @C10 @C08
 //@arm Dup
 //@after 1 self.state.stack.inner.push(top.clone());
                         assert(self.view() =~= old(self).view().push(old(self).view().last()));
@@ -640,7 +642,7 @@ impl Generator {
     ensures
         pso_ok(old(self), opcode, RefArg { idx: 0 }, r) ==> final(self).rel(sim_step(opcode, RefArg { idx: 0 }, r)), // @C17 @C01
         final(self).output@ == old(self).output@.push(ref_code(opcode) as u8), // @C04
-        final(self).same_config(old(self)),
+        final(self).same_config(old(self)), // @C08
 //@endfn
 
     /// opcodes the stack-collapse phase may use (C05: all available in the requested protocol)
@@ -1341,7 +1343,7 @@ pub fn get_random_module(&self, source: &mut GenerationSource) -> (r: Result<VfT
         final(self).state.stack == old(self).state.stack,
         final(self).state.memo == old(self).state.memo,
         final(self).state.version == old(self).state.version,
-        final(self).same_config_but_proto(old(self)),
+        final(self).same_config_but_proto(old(self)), // @C08
 //@endfn
 
     pub open spec fn same_config_but_proto(&self, o: &Generator) -> bool {
@@ -1362,7 +1364,7 @@ pub fn get_random_module(&self, source: &mut GenerationSource) -> (r: Result<VfT
         final(self).view() == Seq::<Kind>::empty(), // @C08 @C01 @C17
         final(self).state.memo@ == Map::<usize, StackObjectRef>::empty(), // @C08 @C02 @C17
         !final(self).state.proto_emitted, // @C08 @C05
-        final(self).same_config_but_proto(old(self)),
+        final(self).same_config_but_proto(old(self)), // @C08
 //@endfn
 
     pub open spec fn op_ok(&self, op: OpcodeKind) -> bool {
@@ -1554,7 +1556,8 @@ pub fn get_random_module(&self, source: &mut GenerationSource) -> (r: Result<VfT
         }
 //@loop 1
             invariant
-                !self.unsafe_mutations, self.same_config_but_proto(old(self)), self.mutators_consistent(),
+                !self.unsafe_mutations, self.mutators_consistent(),
+                self.same_config_but_proto(old(self)), // @C08 (the configuration is not touched by a generation call: later calls see the same knobs)
                 ver_num(self.state.version) >= 2 ==> self.state.proto_emitted, // @C05
                 self.rel(gr), // @C17 @C01 @C02 @C03
                 contig(gr), // @C02
@@ -1610,7 +1613,7 @@ pub fn get_random_module(&self, source: &mut GenerationSource) -> (r: Result<VfT
             assert(use_frame ==> vstd::bytes::spec_u64_from_le_bytes(out.subrange(3, 11)) == out.len() - 11); // @C06
             assert(out.len() >= h);
             assert(out.subrange(h, out.len() as int) =~= flat(gch) + codes(tail) + seq![0x2eu8]); // @C08 @C06 @C11
-            assert(self.same_config_but_proto(old(self)));
+            assert(self.same_config_but_proto(old(self))); // @C08
             // framing (C04): the lexer re-discovers exactly the recorded opcodes
             Generator::lemma_gen_framing(out, h, gch, gtr, tail, old(self).state.version);
             assert(self.gen_post(old(self), out, target_opcodes as int, use_frame, gtr, tail, gch));
@@ -1652,7 +1655,7 @@ pub fn get_random_module(&self, source: &mut GenerationSource) -> (r: Result<VfT
         ver_num(old(self).state.version) >= 2 ==> old(self).state.proto_emitted,
     ensures
         res is Ok, // @C09
-        final(self).same_config(old(self)),
+        final(self).same_config(old(self)), // @C08
         exists|chunk: Seq<u8>| final(self).output@ == old(self).output@ + chunk && #[trigger] old(self).chunk_ok_u(chunk), // @C04 @C10 @C06
 //@enddef
 
@@ -1679,7 +1682,7 @@ pub fn get_random_module(&self, source: &mut GenerationSource) -> (r: Result<VfT
         old(self).rel(r),
     ensures
         res is Ok, // @C09
-        final(self).same_config(old(self)),
+        final(self).same_config(old(self)), // @C08
         exists|chunk: Seq<u8>| final(self).output@ == old(self).output@ + chunk && #[trigger] old(self).chunk_ok_u(chunk), // @C04
 //@before 1 Ok(())
         proof {
@@ -1705,7 +1708,7 @@ pub fn get_random_module(&self, source: &mut GenerationSource) -> (r: Result<VfT
         old(self).rel(r),
     ensures
         res is Ok, // @C09
-        final(self).same_config(old(self)),
+        final(self).same_config(old(self)), // @C08
         exists|chunk: Seq<u8>| final(self).output@ == old(self).output@ + chunk && #[trigger] old(self).chunk_ok_u(chunk), // @C04
 //@before 1 Ok(())
         proof {
@@ -1732,7 +1735,7 @@ pub fn get_random_module(&self, source: &mut GenerationSource) -> (r: Result<VfT
         Generator::bytes_family(opcode),
     ensures
         res is Ok, // @C09
-        final(self).same_config(old(self)),
+        final(self).same_config(old(self)), // @C08
         exists|chunk: Seq<u8>| final(self).output@ == old(self).output@ + chunk && #[trigger] old(self).chunk_ok_u(chunk), // @C04
 //@before 1 Ok(())
         proof {
@@ -1762,7 +1765,7 @@ pub fn get_random_module(&self, source: &mut GenerationSource) -> (r: Result<VfT
         Generator::string_family(opcode),
     ensures
         res is Ok, // @C09
-        final(self).same_config(old(self)),
+        final(self).same_config(old(self)), // @C08
         exists|chunk: Seq<u8>| final(self).output@ == old(self).output@ + chunk && #[trigger] old(self).chunk_ok_u(chunk), // @C04
 //@before 1 Ok(())
         proof {
@@ -2155,7 +2158,7 @@ pub fn get_random_module(&self, source: &mut GenerationSource) -> (r: Result<VfT
         }
 //@loop 1
             invariant
-                self.same_config_but_proto(old(self)),
+                self.same_config_but_proto(old(self)), // @C08
                 ver_num(self.state.version) >= 2 ==> self.state.proto_emitted,
                 self.rel(gr),
                 vf_i <= target_opcodes,
